@@ -339,7 +339,7 @@ def main(tier):
                     got = p2.stdout.strip()
                     ok = p2.returncode == 0 and got == v
                     evs.append({"e": "Round", "t": f["t"], "s": f["s"], "k": f["k"], "text": text[:80], "len": max(1, len(text)), "used": len(text) if ok else 0,
-                                "v": v, "p": got[:60] if got else "rc=%d" % p2.returncode, "src": "dconv-" + mode, "fmt": fs})
+                                "v": v, "p": got[:60] if got else "rc=%d" % p2.returncode, "src": "dconv-" + mode, "fmt": fs, "cal": f["cal"]})
             return evs
         with ThreadPoolExecutor(max_workers=core.NCPU) as ex:
             for evs in ex.map(tool_rt, pick):
@@ -356,11 +356,14 @@ def main(tier):
             if badev.get("e") == "Default":
                 return "default output of %s not read back by the format-less parser" % badev.get("cal")
             ts = badev.get("t", [])
-            if (badev.get("fmt"), badev.get("k")) in lib_failing:
-                # the library replay has reported this format already: same key, same finding
-                for key, lst in lib_keys.items():
-                    if any(fstr(x[0]) == badev.get("fmt") for x in lst):
-                        return key
+            kindname = {"d": "date", "t": "time", "dt": "date-time"}.get(badev.get("k"), "?")
+
+            def libkey(t):
+                return "roundtrip token %s (%s, %s)" % (t, kindname, badev.get("cal", "?"))
+            # a token that fails in the library replay (or is a recorded finding) explains the tool-level failure too: one finding, one key
+            for t in sorted(set(ts)):
+                if libkey(t) in lib_keys or (PID, libkey(t).replace(" ", "_")) in rep.known:
+                    return libkey(t)
             best = max(set(ts), key=lambda t: (tool_fail[t] / max(1, tool_tot[t]), t)) if ts else "?"
             return "dconv round trip (%s) token %s" % (badev.get("src"), best)
         lib_bad = {id(e) for e in lib_events[400:]}
